@@ -272,7 +272,7 @@ func trimStack(b []byte) string {
 		if strings.Contains(l, "gosym") || strings.Contains(l, "main.") {
 			out = append(out, strings.TrimSpace(l))
 		}
-		if len(out) > 6 {
+		if len(out) > 14 {
 			break
 		}
 	}
